@@ -142,7 +142,9 @@ inline void emit_record(bool ok, const std::string& cls, const std::string& det,
              ",\"live\":" + std::to_string(st.max_live_threads) +
              ",\"sync\":" + std::to_string(st.sync_ops) + ",\"fp\":\"" + fp + "\"";
         o += ",\"f\":{\"spurious_wake\":" + std::to_string(st.f_spurious) +
-             ",\"notify_choice\":" + std::to_string(st.f_notify_choice) + "}";
+             ",\"notify_choice\":" + std::to_string(st.f_notify_choice) +
+             ",\"alloc_recycle\":" + std::to_string(st.f_alloc_recycle) +
+             ",\"alloc_poison\":" + std::to_string(st.f_alloc_quarantined) + "}";
         o += ",\"rp\":{\"mutex_contended\":" + std::to_string(st.p_mutex_contended) +
              ",\"notify_empty\":" + std::to_string(st.p_notify_empty) +
              ",\"notify_multi\":" + std::to_string(st.p_notify_multi) +
@@ -337,6 +339,7 @@ inline int worker_main(int argc, char** argv, const HarnessDef& h) {
     const char* replay_path = nullptr;
     int cpu = -1;
     bool dry = false;
+    unsigned watchdog = 0;
     if (const char* e = getenv("VERIF_SEED")) base_seed = strtoull(e, nullptr, 10);
     for (int i = 1; i < argc; ++i) {
         std::string a = argv[i];
@@ -347,6 +350,7 @@ inline int worker_main(int argc, char** argv, const HarnessDef& h) {
         else if (a == "--tier" && i + 1 < argc) tier = !strcmp(argv[++i], "thorough") ? 1 : 0;
         else if (a == "--full") ws().full = true;
         else if (a == "--dry") dry = true;
+        else if (a == "--watchdog" && i + 1 < argc) watchdog = unsigned(atoi(argv[++i]));
         else if (a == "--full-first" && i + 1 < argc) full_first = strtoull(argv[++i], nullptr, 10);
         else if (a == "--replay" && i + 1 < argc) replay_path = argv[++i];
         else if (a == "--cpu" && i + 1 < argc) cpu = atoi(argv[++i]);
@@ -364,7 +368,7 @@ inline int worker_main(int argc, char** argv, const HarnessDef& h) {
     // reports are noted through __tsan_on_report and handled at run end)
     if (__sanitizer_set_death_callback) __sanitizer_set_death_callback(death_cb);
 #endif
-    rt_start_watchdog(h.watchdog_s);
+    rt_start_watchdog(watchdog ? watchdog : h.watchdog_s);
     struct sigaction sa; memset(&sa, 0, sizeof sa);
     sa.sa_handler = signal_cb;
     sigaction(SIGABRT, &sa, nullptr);
